@@ -14,10 +14,14 @@ open LyModel LyModel.Tree LyModel.Diff
 
 variable {P : DNode → Bool} {fx : Fixes}
 
+/-- the operation of a target node is its own (unless it is an inner node with operation `none`), or the node is a copy inside a
+created subtree: no metadata, `create` inherited -/
+def OwnOK (cur : Option Op) (t : DNode) : Prop :=
+  (∀ op, effOp t cur = some op → (t.isTerm = true ∨ op ≠ .none) → ownOp t = some op) ∨ (t.metas = [] ∧ cur = some .create)
+
 /-- an original node of the first diff: exact for the instance of `L` at its place, literal leaf metadata -/
 def Orig (S : Schema) (P : DNode → Bool) (cur : Option Op) (L : List DNode) (t : DNode) : Prop :=
-  exactE S P cur (look S L t) t = true ∧ litN t = true ∧
-    (∀ op, effOp t cur = some op → (t.isTerm = true ∨ op ≠ .none) → ownOp t = some op)
+  exactE S P cur (look S L t) t = true ∧ litN t = true ∧ OwnOK cur t
 
 /-- at a level whose nodes inherit `none` (or nothing) every exact literal node has its operation as its own, unless it is an
 inner node with operation `none` -/
@@ -185,14 +189,13 @@ theorem merge_matched_term {S : Schema} (K : KeyOrderOn S P) {o : MergeOpts}
     Acts.det (hT.acts t hmem) (acts_exact_term (fx := fx) K htt htex hcop (good_look hgL)) hgL (hT.kb t hmem) rfl
   have hlY : look S Y src = look S Y t := look_congr K (goodT_goodL hgY) hsd htd hm
   have hy : (look S Y src).map normN = tEff t cop := by rw [hlY, hR.on t hmem, hEt]
-  obtain ⟨m, hcell, hmd, hmt, hms, hmm, ⟨opm, hopm⟩, halt⟩ :=
-    term_cell (fx := fx) K hq htt hst hm htex hlt hsex hls (good_look hgL) (good_look hgY) hcop hsop hy hsafe ⟨_, hown _ hcop (Or.inl htt)⟩
-      (src_own_or_plain hsin hst hsex hls hsop)
+  obtain ⟨m, hcell, hmd, hmt, hms, hmm, halt⟩ :=
+    term_cell (fx := fx) K hq htt hst hm htex hlt hsex hls (good_look hgL) (good_look hgY) hcop hsop hy hsafe
+      (hown.imp (fun h => ⟨_, h _ hcop (Or.inl htt)⟩) id) (src_own_or_plain hsin hst hsex hls hsop)
   obtain ⟨Y', hY', hgY', hkY', hloc, hval⟩ := acts_exact_term (fx := fx) K hst hsex hsop (good_look hgY) n hp Y hh hgY hkb rfl
   have hkids : (fun (c' s' : Option Op) (tk : List DNode) => if src.isTerm then Except.ok tk else mergeKids S o c' s' true src.kids tk)
       (childInhOf m cur) (childInhOf src sin) m.kids = .ok m.kids := by simp [hst]
-  have hred : isRedundant S cur (m.setKids m.kids) = isRedundant S none m := by
-    rw [setKids_kids]; exact isRedundant_own S cur none m opm hopm
+  have hred : isRedundant S cur (m.setKids m.kids) = isRedundant S cur m := by rw [setKids_kids]
   have hpre' : ∀ x ∈ kp ++ pre, matchP S src x = false := by
     intro x hx
     rcases List.mem_append.mp hx with hx | hx
@@ -212,7 +215,7 @@ theorem merge_matched_term {S : Schema} (K : KeyOrderOn S P) {o : MergeOpts}
     have hstep := mergeStep_keep S o cur sin src t m (kp ++ pre) rest m.kids sop cop
       (fun c' s' tk => if src.isTerm then Except.ok tk else mergeKids S o c' s' true src.kids tk) hsop hcop hpre' hm htd.ndi hsd.ndi
       hcell hkids (by rw [hred]; exact hr)
-    rw [← mergeR_eq, ← hassoc, hred, isRedundant_fst S none m (by rw [hms]; exact htd.nuo)] at hstep
+    rw [← mergeR_eq, ← hassoc, hred, isRedundant_fst S cur m (by rw [hms]; exact htd.nuo)] at hstep
     obtain ⟨hT2, hR2⟩ := tinv_set K hT1 hR1 hmd (by rw [hms]; exact htk) hmm hms hactm hsd hm hloc hval hgY'
     have hperm2 : (m :: (pre ++ rest)).Perm (pre ++ m :: rest) := List.perm_middle.symm
     refine ⟨pre ++ m :: rest, _, Y', by rw [hstep]; simp, hY', hgY', hkY', hloc, hT2.perm hperm2, hR2.perm hperm2, ?_⟩
@@ -350,7 +353,7 @@ theorem merge_matched_inner {S : Schema} (K : KeyOrderOn S P) {o : MergeOpts} {n
       rw [hdk] at hc
       have h1 := exactK_mem true kt hexkt tk (by simpa [dk] using htk)
       have hlk := litL_mem (by simp only [litN, Bool.and_eq_true] at hlt; exact hlt.2) ((noKeys_sublist S kt).subset htk)
-      exact ⟨⟨h1.1, hlk, own_of_inhOK (Or.inr hcur') h1.1 hlk⟩,
+      exact ⟨⟨h1.1, hlk, Or.inl (own_of_inhOK (Or.inr hcur') h1.1 hlk)⟩,
         safeK_mem hsafeK c ((noKeys_sublist S ks).subset hc) tk htk hmc⟩)
     hexks (by simp only [litN, Bool.and_eq_true] at hls; exact hls.2)
   rw [keysOf_append_noKeys] at hmk
@@ -948,7 +951,8 @@ theorem merge_matched_inner_nd {S : Schema} (K : KeyOrderOn S P) {o : MergeOpts}
             rw [hco]
             simp only [litN, Bool.and_eq_true] at h2 ⊢
             exact ⟨by simp [litInner], h2.2⟩
-      · intro op hop _
+      · refine Or.inl ?_
+        intro op hop _
         rw [effOp_own' hopx] at hop
         rw [hopx, Option.some.inj hop]
       · rw [safeP_congr (t := c0) (cur1 := some .none) (isTerm_explNone c0) ?_ ?_ (kids_explNone c0)]
@@ -1184,6 +1188,22 @@ theorem matchP_changeOp_both {S : Schema} {a : DNode} (ha : S.isDupInst a.sid = 
     matchP S (changeOp a op) (changeOp b op) = matchP S a b := by
   rw [matchP_changeOp, matchP_of_same_data_right (x := b) ha (by simp) (by simp) (by simp)]
 
+/-- what `lyd_diff_merge_delete` makes of a created inner node with a plain subtree (its `create` its own or inherited) -/
+theorem mergeDelete_create_inner' (S : Schema) (s0 : Nat) (f : Flags) (mt : List Meta) (ks : List DNode) (s : DNode)
+    (hchg : changeOp (.inner s0 f mt ks) .none = .inner s0 f [("operation", bs "none")] ks)
+    (hsame : sameInst S (.inner s0 f mt ks) s = true) (hnd : S.isDupInst s0 = false) (hnt : S.isTerm s0 = false)
+    (hkids : ∀ c ∈ noKeys S ks, getMeta c "operation" = none ∧ (findForApply S s.kids c).isSome = true) :
+    mergeDelete S (.inner s0 f mt ks) .create s =
+      .ok (.inner s0 f [("operation", bs "none")] (keysOf S ks ++ (noKeys S ks).map fun c => changeOp c .create)) := by
+  unfold mergeDelete
+  simp only [hsame, Bool.not_true, Bool.false_eq_true, if_false, pj_sid_inner, hnt, Except.map]
+  simp only [hchg, pj_sid_inner, hnd, Bool.false_eq_true, if_false, pj_kids_inner, pj_setKids_inner]
+  congr 3
+  apply List.map_congr_left
+  intro c hc
+  obtain ⟨h2, h3⟩ := hkids c hc
+  simp only [h2, h3, Option.isSome_none, Bool.false_eq_true, if_false, if_true]
+
 /-- an inner node CREATED by the first diff meets a `delete` of the whole instance by the second: nothing is left -/
 theorem merge_matched_inner_cd {S : Schema} (K : KeyOrderOn S P) {o : MergeOpts} {n : Nat} {hp : Bool} {cur sin : Option Op}
     {s : Nat} {f : Flags} {ms : List Meta} {ks : List DNode} {t : DNode}
@@ -1207,36 +1227,42 @@ theorem merge_matched_inner_cd {S : Schema} (K : KeyOrderOn S P) {o : MergeOpts}
   | inner st ft mt kt =>
   have hss : st = s := matchP_sid hm
   subst hss
-  have hot : ownOp (DNode.inner st ft mt kt) = some .create := hown .create hcop (Or.inr (by decide))
-  have hmt : mt = [("operation", bs "create")] := by
-    simp only [litN, Bool.and_eq_true, litInner, Bool.or_eq_true, beq_iff_eq] at hlt
-    rcases hlt.1 with ((h | h) | h) | h
-    · subst h; simp [ownOp, getMeta, DNode.metas] at hot
-    · subst h; simp [ownOp, getMeta, DNode.metas, ofBytes_none] at hot
-    · exact h
-    · subst h; simp [ownOp, getMeta, DNode.metas, ofBytes_delete] at hot
-  subst hmt
+  have hmt : mt = [("operation", bs "create")] ∨ (mt = [] ∧ cur = some .create) := by
+    rcases hown with hown | ⟨h1, h2⟩
+    · left
+      have hot : ownOp (DNode.inner st ft mt kt) = some .create := hown .create hcop (Or.inr (by decide))
+      simp only [litN, Bool.and_eq_true, litInner, Bool.or_eq_true, beq_iff_eq] at hlt
+      rcases hlt.1 with ((h | h) | h) | h
+      · subst h; simp [ownOp, getMeta, DNode.metas] at hot
+      · subst h; simp [ownOp, getMeta, DNode.metas, ofBytes_none] at hot
+      · exact h
+      · subst h; simp [ownOp, getMeta, DNode.metas, ofBytes_delete] at hot
+    · exact Or.inr ⟨h1, h2⟩
+  have hchg : changeOp (.inner st ft mt kt) .none = .inner st ft [("operation", bs "none")] kt := by
+    rcases hmt with rfl | ⟨rfl, _⟩ <;> simp [changeOp, eraseMeta, DNode.setMetas, DNode.metas, Op.str]
   obtain ⟨hx0, hplt, hgkt⟩ := exactE_create htex hcop
   obtain ⟨y, hy, hdq, hpl, hgks⟩ := exactE_delete hsex hsop
   simp only [DNode.kids] at hplt hgkt hpl hgks
   obtain ⟨hgy, hys⟩ := good_look hgY y hy
   have hgyk := goodN_kidsT hgy
   have hyt : y.isTerm = false := by rw [(goodN_dom hgy).typed, hys, ← hsd.typed]; rfl
-  have hmem : DNode.inner st ft [("operation", bs "create")] kt ∈ pre ++ DNode.inner st ft [("operation", bs "create")] kt :: rest := by
+  have hmem : DNode.inner st ft mt kt ∈ pre ++ DNode.inner st ft mt kt :: rest := by
     simp
-  have hperm : (pre ++ DNode.inner st ft [("operation", bs "create")] kt :: rest).Perm
-      (DNode.inner st ft [("operation", bs "create")] kt :: (pre ++ rest)) := List.perm_middle
+  have hperm : (pre ++ DNode.inner st ft mt kt :: rest).Perm
+      (DNode.inner st ft mt kt :: (pre ++ rest)) := List.perm_middle
   have hT1 := hT.perm hperm
   have hR1 := hR.perm hperm
-  have hcur' : childInhOf (.inner st ft [("operation", bs "create")] kt) cur = some .create :=
-    childInh_of_own _ .create cur hot (by decide)
+  have hcur' : childInhOf (.inner st ft mt kt) cur = some .create := by
+    rcases hmt with rfl | ⟨rfl, rfl⟩
+    · exact childInh_of_own _ .create cur (ownOp_of_metas _ .create rfl) (by decide)
+    · simp [childInhOf, ownOp, getMeta, DNode.metas]
   have hsin' : childInhOf (.inner st f ms ks) sin = some .delete := childInh_delete hsop
   rw [hcur', hsin'] at hsafeK
   simp only [DNode.kids] at hsafeK hkord
   -- what the target node makes of the (absent) instance, and what the second tree has there
-  have hEt : E (.inner st ft [("operation", bs "create")] kt) = some (normN (.inner st ft [("operation", bs "create")] kt)) :=
+  have hEt : E (.inner st ft mt kt) = some (normN (.inner st ft mt kt)) :=
     Acts.det (hT.acts _ hmem) (by rw [hx0]; exact acts_create K (by rw [← hx0]; exact htex) hcop) hgL (hT.kb _ hmem) rfl
-  have hlY : look S Y (.inner st f ms ks) = look S Y (.inner st ft [("operation", bs "create")] kt) :=
+  have hlY : look S Y (.inner st f ms ks) = look S Y (.inner st ft mt kt) :=
     look_congr K (goodT_goodL hgY) hsd htd hm
   have hykt : normL13 y.kids = normL13 kt := by
     have h1 := hR.on _ hmem
@@ -1342,7 +1368,8 @@ theorem merge_matched_inner_cd {S : Schema} (K : KeyOrderOn S P) {o : MergeOpts}
         | inner s' f' m' k' =>
           have hpk : plainL k' = true := by simpa [DNode.kids] using plainN_kids hpc
           simp [DNode.setMetas, litN, litInner, Op.str, litL_of_plain k' hpk]
-      · intro op hop _
+      · refine Or.inl ?_
+        intro op hop _
         rw [effOp_own' hown0] at hop
         rw [hown0, Option.some.inj hop]
       · rw [safeP_congr (t := c0) (cur1 := some .create) (by simp) ?_ ?_ (by simp)]
@@ -1405,12 +1432,12 @@ theorem merge_matched_inner_cd {S : Schema} (K : KeyOrderOn S P) {o : MergeOpts}
   -- the cell `delete` on `create`, the recursion, and the node is dropped
   have hndi : S.isDupInst st = false := htd.ndi
   have hSt : S.isTerm st = false := by have := hsd.typed; simpa [DNode.isTerm, DNode.sid] using this.symm
-  have hsame : sameInst S (.inner st ft [("operation", bs "create")] kt) (.inner st f ms ks) = true :=
+  have hsame : sameInst S (.inner st ft mt kt) (.inner st f ms ks) = true :=
     sameInst_of_matchP_inner hsd rfl hm
   let t1 : DNode := .inner st ft [("operation", bs "none")] (keysOf S kt ++ Tk)
-  have hcell : mergeCell S o .delete (.inner st ft [("operation", bs "create")] kt) .create (.inner st f ms ks) = .ok (t1, false) := by
+  have hcell : mergeCell S o .delete (.inner st ft mt kt) .create (.inner st f ms ks) = .ok (t1, false) := by
     show (mergeDelete S _ .create _).map (·, false) = _
-    rw [mergeDelete_create_inner S st ft kt _ hsame hndi hSt]
+    rw [mergeDelete_create_inner' S st ft mt kt _ hchg hsame hndi hSt]
     · rfl
     · intro c hc
       obtain ⟨hcm, _, hpc, _⟩ := hkid c hc
@@ -1442,9 +1469,9 @@ theorem merge_matched_inner_cd {S : Schema} (K : KeyOrderOn S P) {o : MergeOpts}
     rcases List.mem_append.mp ha with ha | ha
     · exact matchP_key_lt (hkp a ha).2
     · exact hpre a ha
-  have hassoc : kp ++ (pre ++ DNode.inner st ft [("operation", bs "create")] kt :: rest) =
-      (kp ++ pre) ++ DNode.inner st ft [("operation", bs "create")] kt :: rest := by simp
-  have hstep := mergeStep_cancel S o cur sin (.inner st f ms ks) (.inner st ft [("operation", bs "create")] kt) t1 (kp ++ pre) rest
+  have hassoc : kp ++ (pre ++ DNode.inner st ft mt kt :: rest) =
+      (kp ++ pre) ++ DNode.inner st ft mt kt :: rest := by simp
+  have hstep := mergeStep_cancel S o cur sin (.inner st f ms ks) (.inner st ft mt kt) t1 (kp ++ pre) rest
     (keysOf S kt ++ []) .delete .create
     (fun c' s' tk => if (DNode.inner st f ms ks).isTerm then Except.ok tk
       else mergeKids S o c' s' true (DNode.inner st f ms ks).kids tk)
@@ -1607,7 +1634,7 @@ theorem merge_apply_exact {S : Schema} (K : KeyOrderOn S P) {o : MergeOpts}
       intro c hc t ht hmt
       rw [hdk2] at hc
       have hex := (exactK_mem false D1 hD1 t (by rw [hdk1]; exact ht)).1
-      exact ⟨⟨hex, litL_mem hl1 ht, own_of_inhOK (Or.inl rfl) hex (litL_mem hl1 ht)⟩,
+      exact ⟨⟨hex, litL_mem hl1 ht, Or.inl (own_of_inhOK (Or.inl rfl) hex (litL_mem hl1 ht))⟩,
         safeK_mem hsafe c hc t ht hmt⟩)
     hD2 hl2
   rw [hdk2] at ha
